@@ -66,6 +66,20 @@ def run(ctx):
             if fam == "PageHinkley" and i % 2 == 0:
                 items = [abs(x) + 0.5 for x in items]       # positive data: the relation must hold outright
             ts.append(P.two_runs(fam, strict, loose, items, rng.randrange(10 ** 6), "FirstDriftNotLater", extra={"par": par}))
+    # ADWIN with a single bucket row (max_buckets larger than any window: every sample is its own bucket), a check after every sample and slowly
+    # ramping data: the looser run trims its window a sample at a time while the stricter one keeps it - whatever is dropped is reported
+    for i in range(8 if q else 40):
+        import math
+        slope, amp, ph = rng.choice([0.004, 0.008, 0.012, 0.02]), rng.choice([0.03, 0.06]), rng.uniform(0, 6.28)
+        items = [round(slope * j + amp * math.sin(1.7 * j + ph) * math.cos(0.3 * j * j), 4) for j in range(rng.randint(130, 170))]       # a slow ramp with a bounded wobble
+        p = dict(max_buckets=rng.choice([64, 200]), new_sample_thresh=rng.choice([1, 1, 2]))
+        if i % 3 == 2:
+            p.update(window_size_thresh=rng.choice([4, 10]), subwindow_size_thresh=rng.choice([1, 2, 5]))
+        ds = [0.5, 0.2, 0.05, 0.01, 0.002]
+        s_ = rng.randrange(10 ** 6)
+        for a_ in range(len(ds)):
+            for b_ in range(a_ + 1, len(ds)):       # every ordered pair of the five levels on the same history
+                ts.append(P.two_runs("ADWIN", dict(p, delta=ds[b_]), dict(p, delta=ds[a_]), items, s_, "FirstDriftNotLater", extra={"par": "delta"}))
     # CUSUM with a known target: the sums accumulate during burn-in, so a shift that begins inside the burn-in window
     # lets the loose threshold be crossed before the first admissible alarm while the strict one is crossed later
     for i in range(40 if q else 200):
